@@ -557,6 +557,16 @@ class Driver(object):
                    udb=self.read_usage(usag[0]) if usag else self.read_usage())
         return see == self.read_disk()
 
+    _send_fail = None
+
+    def _send(self, cname, payload):
+        """stands in for the protocol's sendMessage"""
+        if self._send_fail is not None and cname == self._send_fail:
+            # what autobahn does for a protocol that is no longer OPEN
+            from autobahn.exception import Disconnected
+            raise Disconnected("Attempt to send on a closed protocol")
+        self._record_frame(cname, payload, self._sent)
+
     def _record_frame(self, cname, payload, sent_msg):
         T = self.tokens
         st = self._step
@@ -808,7 +818,7 @@ class Driver(object):
         if k == "Connect":
             p = self.factory.buildProtocol(None)
             cname = e["c"]
-            p.sendMessage = lambda payload, isBinary=False, _c=cname: self._record_frame(_c, payload, self._sent)
+            p.sendMessage = lambda payload, isBinary=False, _c=cname: self._send(_c, payload)
             self._sent = None
             self.protos[cname] = p
             err = self._guard(p.onOpen, cname)
@@ -819,8 +829,17 @@ class Driver(object):
             if extra_json:
                 d.update(extra_json)
             self._sent = d
-            self._force_pick = self.tokens.conc("name", e["pick"]) if e["pick"] != ABSENT else None
-            err = self._guard(lambda: p.onMessage(json.dumps(d).encode("utf-8"), False), cname)
+            self._force_pick = None
+            self._send_fail = None
+            if e["pick"] != ABSENT and e["m"]["type"] == "add":
+                # the `pick` of an add: a connection in its closing handshake, sends to it fail
+                self._send_fail = e["pick"]
+            elif e["pick"] != ABSENT:
+                self._force_pick = self.tokens.conc("name", e["pick"])
+            try:
+                err = self._guard(lambda: p.onMessage(json.dumps(d).encode("utf-8"), False), cname)
+            finally:
+                self._send_fail = None
             if k == "CrashInCmd":
                 crash_at = e["at"]
         elif k == "Drop":
